@@ -105,13 +105,22 @@ theorem addSpecifiedData_optional (F : Facts) (gs : List QGraph) (r : Row) (c : 
   · cases h
   · rename_i cl heq
     split at h
-    · cases h
-    · rename_i fetched hf
-      simp only [pure, Except.pure] at h
-      injection h with h
-      subst h
-      rw [hc]
-      exact joinRow_optional r _ fetched
+    · -- the clause extracts nothing: the row itself is kept
+      split at h
+      · cases h
+      · rename_i fetched hf
+        simp only [pure, Except.pure, hc, Bool.or_true, if_true] at h
+        injection h with h
+        subst h
+        exact ⟨by simp, fun r' hr' => by simp at hr'; subst hr'; exact ⟨[], by simp⟩⟩
+    · split at h
+      · cases h
+      · rename_i fetched hf
+        simp only [pure, Except.pure] at h
+        injection h with h
+        subst h
+        rw [hc]
+        exact joinRow_optional r _ fetched
 
 theorem specifyAll_optional (F : Facts) (gs : List QGraph) (c : Clause) (lo : QOpts) (lim : Int) (hc : c.optional = true)
     (rows out : List Row) (h : specifyAll F gs c lo lim rows = .ok out) :
